@@ -502,6 +502,8 @@ def _solve_one(ob, timeout_ms, use_cvc5=True, ex=None):
     t0 = time.time()
     s = z3.Solver()
     s.set("timeout", timeout_ms)
+    if getattr(ob, "retry_seed", None):
+        s.set("random_seed", ob.retry_seed)
     terms = list(ob.pc) + [z3.Not(ob.goal)]
     for ax in axioms_for(terms):
         s.add(ax)
@@ -888,6 +890,22 @@ def seq_to_list(r, model):
 
 
 def solve_all(obls, timeout_ms, ex, width):
+    """first pass over all obligations, then one second chance -- in a fresh process, with another random seed -- for
+    every obligation that was lost to a killed / dead worker (z3's sequence solver is unstable on identical input,
+    most visibly when the machine is loaded: such a loss says nothing about the obligation).  A second loss stands."""
+    _solve_all(obls, timeout_ms, ex, width)
+    lost = [ob for ob in obls if ob.status == "unknown" and ("hard timeout" in (ob.reason or "") or
+                                                            "process died" in (ob.reason or ""))]
+    if lost and len(lost) <= 12:
+        for ob in lost:
+            ob.retry_seed = 4711
+        _solve_all(lost, timeout_ms, ex, min(width, len(lost)) if len(lost) > 2 else 1)
+        for ob in lost:
+            if ob.status == "proved":
+                ob.backend = (ob.backend or "z3") + " (second attempt)"
+
+
+def _solve_all(obls, timeout_ms, ex, width):
     """solve obligations with `width` forked workers, each taking a slice (one fork per worker, not per obligation:
     forking a process that holds a large z3 context is expensive).  Workers stream one record per obligation; a worker
     that makes no progress past the budget of its current obligation is killed and its remaining slice restarted."""
